@@ -28,7 +28,7 @@ BATCH = 25
 
 
 def plan(tier):
-    n = 64 if tier == "quick" else 2400
+    n = 64 if tier == "quick" else 4000
     return {"cases": n, "shards": 16, "timeout": 600 if tier == "quick" else 3000, "min_nontrivial": 32,
             "min": {"cross_process_comparisons": 2000, "child_interpreters": 50, "refusal_probes": 200}}
 
